@@ -190,7 +190,7 @@ def corpus_options(items, r, maxwin):
 
 
 # ------------------------------------------------------------------------------------------------
-def judge(rep, tier, pending):
+def judge(rep, tier, pending, bld):
     """pending: list of (tag, case, job, obs, exp) to be judged by TLC (P2Bin_Trace)."""
     if not pending:
         return
@@ -209,7 +209,18 @@ def judge(rep, tier, pending):
         raise CheckError("P2Bin_Trace judged %d of %d cases" % (len(verdicts), len(pending)))
     harmless = {}
     ndrift = 0
+    # DESIGN 2.4 rule 3: a rejected observation counts only if a second run of the real program repeats it
+    bad = [i for i in range(len(pending)) if not verdicts[i]["ok"]]
+    flaky = set()
+    if bad:
+        again = utilrun.run_many(bld, "p2bin", [pending[i][2] for i in bad])
+        for i, r2 in zip(bad, again):
+            if observe(r2) != pending[i][3]:
+                flaky.add(i)
+                rep.drift("p2bin %s is not deterministic" % " ".join(pending[i][2]["argv"]))
     for i, (tag, c, job, obs, exp) in enumerate(pending):
+        if i in flaky:
+            continue
         v = verdicts[i]
         fit = v["fit"]
         if v["ok"]:
@@ -363,7 +374,7 @@ def main(tier):
         pending.append(("golden test %s" % name, c, job, observe(res), {"rc": "?", "bytes": [], "warn": "?"}))
     rep.part("corpus", files=len(ps) - skipped, skipped_outside_model=skipped, cases=len(cjobs))
     rep.traces(len(cjobs))
-    judge(rep, tier, pending)
+    judge(rep, tier, pending, bld)
     return rep.finish(
         rule="cases = every case of the TLC cover space (P2Bin_Cover*.cfg) + TLC-simulated wide cases + seed-chosen "
              "option sets on code files of the golden tests; distinct = distinct abstract case; non-trivial = the "
